@@ -196,6 +196,16 @@ def cases(shard, nshards, seed, tier):
     for i in range(ncli):
         if mine():
             yield {"family": "cli", "i": i}
+    # the tool on deposited files as they are: entity tables, nucleotide-like ligands outside the polymer entities,
+    # protein chains and water, with the nucleic-acid-only restriction among the options
+    other = ["--ignore-occupancy", "--ignore-autoclashes", "--require-same-atom-name", "--enable-molprobity-mode"]
+    combos = [["--nucleic-acid-only", "--enable-molprobity-mode", "--ignore-occupancy"], ["--nucleic-acid-only"]]
+    if tier != "quick":
+        combos = [["--nucleic-acid-only"] * n + [f for f, b in zip(other, bits) if b] for n in (1, 0) for bits in itertools.product([False, True], repeat=4)]
+    for fn in ["tests/4qln.cif", "tests/8btk_B7.cif"] + ([] if tier == "quick" else ["tests/4qln.pdb", "tests/1ehz-assembly-1.cif"]):
+        for j, flags in enumerate(combos):
+            if mine():
+                yield {"family": "cli-deposited-file", "i": j, "file": fn, "flags": flags}
 
 
 def with_occupancy(structure, seed):
@@ -314,10 +324,16 @@ LINE_RES2 = re.compile(r"^    Clashes found between residues (.*) and (.*) with 
 LINE_ATOM = re.compile(r"^        Clashes found between atoms (.*) and (.*) with occupancy sum of (.*)$")
 
 
-def run_cli(rec, seed, i):
-    from rnapolis import clashfinder
+def run_cli(rec, seed, i, raw=None):
+    from rnapolis import clashfinder, parser
 
     rng = random.Random(f"{seed}:C17:cli:{i}")
+    if raw is not None:
+        # a deposited file as it is (entity tables, ligands, water, protein chains), options given by the case
+        fn, flags = raw["file"], list(raw["flags"])
+        text = open(os.path.join(core.REPO, fn)).read()
+        rec.count("note:cli-metadata-as-deposited")
+        return _run_cli_text(rec, fn, text, flags, i, os.path.splitext(fn)[1], metadata=None)
     # every run sees the two-chain files (clashes between chains) as well as the one-chain ones
     fn = ["tests/4WTI_1_T-P.cif", "tests/1A1T_1_B.cif", "tests/1DFU_1_M-N.cif", "tests/1E7K_1_C.cif", "tests/184D.cif"][i % 5]
     if i % 4 == 3:
@@ -333,11 +349,24 @@ def run_cli(rec, seed, i):
     for r in rows:
         r["occ"] = rng.choice(occs)
     extra = [("exptl", ["entry_id", "method"], [["VMON", "X-RAY DIFFRACTION"]], "kv"), ("refine", ["entry_id", "ls_d_res_high"], [["VMON", "2.10"]], "kv")]
-    text = emit.emit_cif(rows, extra_cats=extra)
     flags = [f for f in ["--ignore-occupancy", "--nucleic-acid-only", "--ignore-autoclashes", "--require-same-atom-name", "--enable-molprobity-mode"] if rng.random() < 0.4]
+    # what the file says about the experiment: both categories (X-ray entries), the method only (NMR entries have no
+    # refinement data), nothing (fragments, models), or a PDB file, which has no categories at all
+    kind = ["both", "both", "method-only", "none", "pdb"][(i // 5) % 5]
+    rec.count("note:cli-metadata-" + kind)
+    if kind == "pdb" and emit.fits_pdb(rows) and all((r["chain"] or "").strip() for r in rows):
+        return _run_cli_text(rec, fn, emit.emit_pdb(rows), flags, i, ".pdb", metadata=("", ""))
+    cats = {"both": extra, "method-only": extra[:1]}.get(kind, [])
+    text = emit.emit_cif(rows, extra_cats=cats)
+    return _run_cli_text(rec, fn, text, flags, i, ".cif", metadata=("X-RAY DIFFRACTION" if cats else "", "2.10" if len(cats) == 2 else ""))
+
+
+def _run_cli_text(rec, fn, text, flags, i, suffix, metadata):
+    from rnapolis import clashfinder, parser
+
     d = tempfile.mkdtemp(prefix="vmon-c17-")
     try:
-        pin, pcsv = os.path.join(d, "in.cif"), os.path.join(d, "out.csv")
+        pin, pcsv = os.path.join(d, "in" + suffix), os.path.join(d, "out.csv")
         open(pin, "w").write(text)
         old = sys.argv
         sys.argv = ["clashfinder", pin, "--csv", pcsv] + flags
@@ -365,6 +394,13 @@ def run_cli(rec, seed, i):
             rec.violation("cli.no-crash", det(err), mechanism=f"crash:{err.split('(')[0]}")
             return False
         clashes = captured.get("res", [])
+        # the list the tool worked from is the library's list for the residues of the file, read the default way, under
+        # the options given (this call is itself judged by the pair-set monitor)
+        with open(pin) as fh:
+            own = orig(parser.read_3d_structure(fh, 1).residues, *[f in flags for f in ("--ignore-occupancy", "--ignore-autoclashes", "--nucleic-acid-only", "--require-same-atom-name", "--enable-molprobity-mode")])
+        key = lambda lst: sorted((str(ri), ai.name, round(ai.x, 3), round(ai.y, 3), round(ai.z, 3), str(rj), aj.name, round(aj.x, 3), round(aj.y, 3), round(aj.z, 3), occ) for (ri, ai), (rj, aj), occ in lst)
+        ko, kc = key(own), key(clashes)
+        rec.check("cli.list-equals-library-list", ko == kc, lambda: det({"tool": len(kc), "library": len(ko), "only-library": [x for x in ko if x not in set(kc)][:3], "only-tool": [x for x in kc if x not in set(ko)][:3]}))
         # expected maxima over the listed clashes
         res_max, chain_max, atom_lines = {}, {}, []
         for (ri, ai), (rj, aj), occ in clashes:
@@ -407,7 +443,7 @@ def run_cli(rec, seed, i):
             rows_csv = list(csv.reader(open(pcsv)))[1:] if os.path.exists(pcsv) else None
             want = sorted((f"{ri} {ai.name}", f"{rj} {aj.name}", str(occ)) for (ri, ai), (rj, aj), occ in clashes)
             gotc = sorted((r[3], r[4], r[5]) for r in rows_csv) if rows_csv is not None else None
-            rec.check("cli.csv-equals-list", gotc == sorted(set(want)) and all(r[1] == "X-RAY DIFFRACTION" and r[2] == "2.10" for r in rows_csv or []),
+            rec.check("cli.csv-equals-list", rows_csv is not None and gotc == sorted(set(want)) and (metadata is None or all((r[1], r[2]) == metadata for r in rows_csv or [])),
                       lambda: det({"csv-rows": None if rows_csv is None else len(rows_csv), "listed": len(want)}))
         return bool(clashes)
     finally:
@@ -419,6 +455,10 @@ def run_cli(rec, seed, i):
 def run_case(case, rec):
     seed = os.environ.get("VERIF_SEED", "0")
     fam = case["family"]
+    if fam == "cli-deposited-file":
+        _cur["ctx"] = {"cli": case["i"], "file": case["file"], "flags": case["flags"]}
+        rec.mark_nontrivial(run_cli(rec, seed, case["i"], raw=case))
+        return
     if fam == "cli":
         _cur["ctx"] = {"cli": case["i"]}
         rec.mark_nontrivial(run_cli(rec, seed, case["i"]))
